@@ -27,6 +27,9 @@ func stdVariants(profile string) []variant {
 	}
 }
 
+// gangSwap: predicate refusals directed at the placeholder's node (replacement lands on another node), late confirmations
+var gangSwap = variant{Name: "gang-swap", Profile: "gang", Policy: "rtc", Steps: 90, Faults: []string{"predicate_flap", "confirm_late"}, FaultRate: 0.03, Weight: 4}
+
 var reloadFaults = []string{"reload_valid", "reload_invalid"}
 
 func reloadVariants(profile string) []variant {
@@ -48,13 +51,13 @@ func preemptVariants() []variant {
 
 var plans = map[string]plan{
 	"C01": {Variants: append(stdVariants("base"), stdVariants("gang")[1]), QuickRuns: 400, QuickSecs: 70, ThoroughRuns: 40000, ThoroughSecs: 1500},
-	"C02": {Variants: append(stdVariants("quota"), stdVariants("base")[0], stdVariants("gang")[1]), QuickRuns: 400, QuickSecs: 70, ThoroughRuns: 40000, ThoroughSecs: 1500},
-	"C03": {Variants: append(stdVariants("base"), stdVariants("gang")...), QuickRuns: 400, QuickSecs: 70, ThoroughRuns: 40000, ThoroughSecs: 1500},
+	"C02": {Variants: append(stdVariants("quota"), stdVariants("base")[0], stdVariants("gang")[1], gangSwap), QuickRuns: 400, QuickSecs: 70, ThoroughRuns: 40000, ThoroughSecs: 1500},
+	"C03": {Variants: append(append(stdVariants("base"), stdVariants("gang")...), gangSwap), QuickRuns: 400, QuickSecs: 70, ThoroughRuns: 40000, ThoroughSecs: 1500},
 	"C04": {Variants: append(stdVariants("base"), stdVariants("gang")...), QuickRuns: 400, QuickSecs: 70, ThoroughRuns: 40000, ThoroughSecs: 1500},
 	"C05": {Variants: append(append(append(stdVariants("limits"), stdVariants("quota")[0]), reloadVariants("limits")...), stdVariants("gang")[1], stdVariants("gang")[2]), QuickRuns: 400, QuickSecs: 70, ThoroughRuns: 40000, ThoroughSecs: 1500},
 	"C15": {Variants: append(reloadVariants("quota"), reloadVariants("limits")...), QuickRuns: 400, QuickSecs: 70, ThoroughRuns: 40000, ThoroughSecs: 1500},
 	"C16": {Variants: append(append(reloadVariants("quota"), reloadVariants("limits")...), reloadVariants("base")...), QuickRuns: 400, QuickSecs: 70, ThoroughRuns: 40000, ThoroughSecs: 1500},
-	"C06": {Variants: append(stdVariants("gang"), variant{Name: "gang-clock", Profile: "gang", Policy: "rtc", Steps: 90, Faults: with(confirmFaults, "clock_jump", "node_loss"), FaultRate: 0.05, Weight: 4}), QuickRuns: 400, QuickSecs: 70, ThoroughRuns: 40000, ThoroughSecs: 1500},
+	"C06": {Variants: append(stdVariants("gang"), gangSwap, variant{Name: "gang-clock", Profile: "gang", Policy: "rtc", Steps: 90, Faults: with(confirmFaults, "clock_jump", "node_loss"), FaultRate: 0.05, Weight: 4}), QuickRuns: 400, QuickSecs: 70, ThoroughRuns: 40000, ThoroughSecs: 1500},
 	"C12": {Variants: []variant{
 		{Name: "restart-base", Profile: "base", Policy: "rtc", Steps: 60, Faults: confirmFaults, FaultRate: 0.03, Weight: 3, Freeze: true},
 		{Name: "restart-gang", Profile: "gang", Policy: "rtc", Steps: 60, Faults: with(confirmFaults, "node_loss"), FaultRate: 0.03, Weight: 3, Freeze: true},
